@@ -437,13 +437,13 @@ def q3(ctx):
     falses = [d for d in ib.defs().get(0, []) if d["kind"] == "assign" and ib.role_of_rvalue(d["rv"]) == ("const", "false")]
     ok = False
     for d in falses:
-        ok = any(cond[0] == "true" and role_str(cond[1]).startswith("contains(") for e, cond in C.conditions_at(ib, d["bb"]))
+        ok = any((cond[0] == "true" and role_str(cond[1]).startswith("contains(")) or (cond[0] == "false" and role_str(cond[1]).startswith("insert(")) for e, cond in C.conditions_at(ib, d["bb"]))
     trues = [d for d in ib.defs().get(0, []) if d["kind"] == "assign" and ib.role_of_rvalue(d["rv"]) == ("const", "true")]
     ctx.check(len(falses) == 1 and ok and len(trues) == 1, "is-bijection", "is_bijection: false on a repeated value, true after all pairs", "is_bijection's structure changed", where_of(ib))
     ck = [c for c in ib.calls if c.callee and c.callee.name in ("contains", "insert") and not ib.blocks[c.bb]["cleanup"]]
     def _is_value(r_):
         return comp(strip_role(r_))[1] == "1" or role_str(r_).endswith(".1") or ((role_mentions_call(r_, "values_immut") or role_mentions_call(r_, "values")) and not role_mentions_call(r_, "keys"))
-    okv = all(_is_value(ib.role_of_operand(c.args[1])) for c in ck) and len(ck) == 2
+    okv = all(_is_value(ib.role_of_operand(c.args[1])) for c in ck) and len(ck) in (1, 2) and any(c.callee.name == "insert" for c in ck)
     ctx.check(okv, "is-bijection-on-values", "is_bijection tracks the value component", "is_bijection tracks %s" % [role_str(ib.role_of_operand(c.args[1])) for c in ck], where_of(ib))
     # contains_key / len / is_empty
     ckb = m(crate, "contains_key")
